@@ -53,3 +53,17 @@ Proof. induction l1 as [|x l1 IH]; cbn [zcount app]; [lia|]. rewrite IH. lia. Qe
 
 Lemma zcount_nonneg {A} (p : A -> bool) l : 0 <= zcount p l.
 Proof. induction l as [|x l IH]; cbn [zcount]; [lia|]. destruct (p x); lia. Qed.
+
+Lemma firstn_app_exact {A} (n : nat) (l1 l2 : list A) :
+  length l1 = n -> firstn n (l1 ++ l2) = l1.
+Proof.
+  intros <-. rewrite firstn_app, Nat.sub_diag, firstn_all. cbn [firstn].
+  apply app_nil_r.
+Qed.
+
+Lemma skipn_app_exact {A} (a b : nat) (l1 l2 : list A) :
+  length l1 = a -> skipn (a + b) (l1 ++ l2) = skipn b l2.
+Proof.
+  intros <-. rewrite skipn_app. rewrite skipn_all2 by lia. cbn [app].
+  f_equal. lia.
+Qed.
